@@ -31,8 +31,9 @@ def _offenders(e):
     """units of an accepted pulling step that were told to brake / got more than they published"""
     if e.get("ev") != "Step" or not e.get("acc") or e.get("sg", 0) <= 0:
         return []
+    slack = 0 if e.get("exact") else 1      # slack of RangePos on off-lattice records (ConsistSplit.tla)
     return [i for i in range(len(e["p"]))
-            if e["p"][i] < 0 or e["p"][i] > e["pub"][i] or e["mpo"][i] < 0 or e["mdb"][i] != 0]
+            if e["p"][i] < 0 or e["p"][i] > e["pub"][i] + slack or e["mpo"][i] < 0 or e["mdb"][i] != 0]
 
 
 def sig_bel_negative_pub(desc, events, inv):
@@ -61,7 +62,9 @@ ASSUME = ["only ACCEPTED steps are judged (Err from Consist::solve_energy_consum
           "domain predicate: every unit publishes a non-negative traction limit; a battery unit whose discharge limit is "
           "below its aux load publishes a negative one — that class is the known finding F-C10-1, ended by an OutOfDomain "
           "event in generated cases and represented by known/consist-negpub-*.json",
-          "powers are compared at 1/16 W: order relations with tolerance 0 (rounding is monotone), sums with N/2+1 units "
+          "powers are compared at 1/16 W: order relations with tolerance 0 (rounding is monotone) except the upper bound of "
+          "a share, which gets one unit on off-lattice records (the f64 share pub/total*req may be 1 ulp above pub, accepted "
+          "by the units' own almost_le TOL=1e-3, reversible_energy_storage.rs:6, fuel_converter.rs:5); sums with N/2+1 units "
           "+ the code's own almost_eq epsilon (utils/mod.rs:148)"]
 
 # quickA: 1-2 units, 3 steps; quickB: 3 units, 2 steps (emission thinned 1-in-4 / 1-in-8 inside TLC, the check is not).
@@ -74,6 +77,90 @@ _THOROUGH = [dict(cfg="MCConsistSplit_allA.cfg", emit=True, max_emit=30000, work
              dict(cfg="MCConsistSplit_thoroughB.cfg", emit=True, max_emit=20000, workers=8, timeout=2400),
              dict(cfg="MCConsistSplit_sim.cfg", emit=True, max_emit=15000, workers=1, timeout=900,
                   simulate="num=15000", coverage=False)]
+
+
+# ---- bin/selftest consist ---------------------------------------------------------------------------------------
+# fault models: deliberately wrong Level-B variants (CONSTANT Fault of ConsistSplit.tla) / the F-C10-1 start class;
+# TLC must report the invariant each is aimed at.
+FAULT_MODELS = [
+    dict(cfg="MCConsistSplit_fault_drop_last_share.cfg", expect=["Sum"]),
+    dict(cfg="MCConsistSplit_fault_surplus_by_rating.cfg", expect=["RangeNeg"]),
+    dict(cfg="MCConsistSplit_fault_fuel_first.cfg", expect=["BatteryFirst"]),
+    dict(cfg="MCConsistSplit_fault_edrv_no_regen_clip.cfg", expect=["Regen"]),
+    dict(cfg="MCConsistSplit_minsoc.cfg", expect=["RangePos", "NoOpposite"]),      # F-C10-1 re-found in the model
+]
+
+
+def _corrupt(pred, change, expect):
+    """corrupts the first call-by-call Step record satisfying pred(event, desc) -> (lines, index, expected names)"""
+    def fn(ev):
+        desc = {}
+        for i, e in enumerate(ev):
+            if e.get("ev") == "begin":
+                desc = e["desc"]
+            if e.get("ev") == "Step" and e.get("via") == "api" and e.get("acc") and pred(e, desc):
+                change(e)
+                return ev, i, expect
+        return None
+    return fn
+
+
+def _idx(e, cond):
+    return next(i for i in range(len(e["p"])) if cond(i))
+
+
+def _has(e, cond):
+    return any(cond(i) for i in range(len(e["p"])))
+
+
+def _bf_pred(e, d):
+    n = len(e["p"])
+    return (d["pdct"] == "RESGreedy" and e["sg"] > 0 and "C" in e["kind"]
+            and _has(e, lambda i: e["kind"][i] == "B" and e["p"][i] >= 64)
+            and e["req"] + n <= sum(e["pub"][i] for i in range(n) if e["kind"][i] == "B"))
+
+
+def _bf_change(e):
+    b = _idx(e, lambda i: e["kind"][i] == "B" and e["p"][i] >= 64)
+    c = e["kind"].index("C")
+    for k in ("p", "mpo"):
+        e[k][b] -= 48
+        e[k][c] += 48
+
+
+def _tot(key, by):
+    return _corrupt(lambda e, d: True, lambda e: e["tot"].__setitem__(key, e["tot"][key] + by + len(e["p"])), None)
+
+
+CORRUPT = {
+    "share_lost": _corrupt(lambda e, d: e["sg"] != 0 and len(e["p"]) >= 2,
+                           lambda e: e["p"].__setitem__(0, e["p"][0] + 8 + len(e["p"])), ["Sum"]),
+    "share_above_published_limit": _corrupt(lambda e, d: e["sg"] > 0 and _has(e, lambda i: e["p"][i] > 8),
+                                            lambda e: e["pub"].__setitem__(_idx(e, lambda i: e["p"][i] > 8),
+                                                                           e["p"][_idx(e, lambda i: e["p"][i] > 8)] - 2),
+                                            ["RangePos"]),
+    "braking_above_drivetrain_rating": _corrupt(lambda e, d: e["sg"] < 0 and _has(e, lambda i: e["p"][i] < -8),
+                                                lambda e: e["rat"].__setitem__(_idx(e, lambda i: e["p"][i] < -8),
+                                                                               -e["p"][_idx(e, lambda i: e["p"][i] < -8)] - 1),
+                                                ["RangeNeg"]),
+    "power_at_zero_demand": _corrupt(lambda e, d: e["sg"] == 0 and len(e["p"]) >= 2,
+                                     lambda e: (e["p"].__setitem__(0, 4), e["p"].__setitem__(1, -4)), ["Zero"]),
+    "dyn_brake_while_pulling": _corrupt(lambda e, d: e["sg"] > 0, lambda e: e["mdb"].__setitem__(0, 5), ["NoOpposite"]),
+    "conventional_unit_regenerates": _corrupt(lambda e, d: e["sg"] < 0 and "C" in e["kind"],
+                                              lambda e: e["mpo"].__setitem__(e["kind"].index("C"), -4), ["Regen"]),
+    "regen_above_published_limit": _corrupt(lambda e, d: e["sg"] < 0 and _has(e, lambda i: e["kind"][i] == "B" and e["mpo"][i] < -8),
+                                            lambda e: e["rgn"].__setitem__(_idx(e, lambda i: e["kind"][i] == "B" and e["mpo"][i] < -8),
+                                                                           -e["mpo"][_idx(e, lambda i: e["kind"][i] == "B" and e["mpo"][i] < -8)] - 1),
+                                            ["Regen"]),
+    "fuel_unit_used_though_battery_covers": _corrupt(_bf_pred, _bf_change, ["BatteryFirst"]),
+    "roll_pwr_out": _tot("p_out", 8), "roll_pwr_fuel": _tot("p_fuel", 8), "roll_pwr_res": _tot("p_res", 8),
+    "roll_energy_out": _tot("e_out", 8), "roll_energy_fuel": _tot("e_fuel", 8), "roll_energy_res": _tot("e_res", 8),
+    "roll_get_fuel": _tot("g_fuel", 8), "roll_get_res": _tot("g_res", 8),
+}
+for _k, _n in (("roll_pwr_out", "RollPwrOut"), ("roll_pwr_fuel", "RollPwrFuel"), ("roll_pwr_res", "RollPwrRes"),
+               ("roll_energy_out", "RollEnergyOut"), ("roll_energy_fuel", "RollEnergyFuel"), ("roll_energy_res", "RollEnergyRes"),
+               ("roll_get_fuel", "RollGetFuel"), ("roll_get_res", "RollGetRes")):
+    CORRUPT[_k] = (lambda f, n: (lambda ev: (lambda r: None if r is None else (r[0], r[1], [n]))(f(ev))))(CORRUPT[_k], _n)
 
 
 def _vacuity(r):
@@ -103,6 +190,7 @@ GROUP = dict(
                     assumptions=ASSUME, exhaustive=False),
     },
     sigs={"bel_negative_pub": sig_bel_negative_pub},
+    fault_models=FAULT_MODELS, corrupt=CORRUPT, selftest_cases=60,
     vacuity=_vacuity,
     harness_timeout={"quick": 300, "thorough": 1800},
     trace_timeout={"quick": 300, "thorough": 1800},
